@@ -57,6 +57,7 @@ class PathCtx:
         self.new_work = []
         self.solver = z3.Solver()
         self.solver.set('timeout', explorer.query_timeout_ms)
+        self.solver.set('rlimit', explorer.rlimit)
         if explorer.seed:
             self.solver.set('random_seed', explorer.seed % (2 ** 30))
         self.atoms = []
@@ -68,6 +69,8 @@ class PathCtx:
         self.angle_info = {}
         self.atan2_done = set()
         self.inv_of = {}
+        self.inv_pair = {}
+        self.exp_points = []
         self.log_atom_arg = {}
         self.div_guards = []
         self.sqrt_guards = []
@@ -212,7 +215,7 @@ class PathCtx:
         self.trace.append(('ch', v))
         return v
 
-    def concretize_int(self, e, limit=64):
+    def concretize_int(self, e, limit=12):
         """Enumerate the feasible values of an Int term (fork per value)."""
         e = z3.simplify(e)
         if z3.is_int_value(e):
@@ -227,7 +230,13 @@ class PathCtx:
         for x in excluded:
             self.solver.add(e != x)
             self.pc.append(e != x)
-        r, m = self._check()
+        # integer truncation of a nonlinear real term sends z3 into NIA, where it may ignore
+        # its wall-clock timeout: bound the resources for this kind of query
+        self.solver.set('rlimit', 400000)
+        try:
+            r, m = self._check()
+        finally:
+            self.solver.set('rlimit', self.ex.rlimit)
         if r != 'sat':
             if r == 'unknown':
                 self.notes.append('unknown-feasibility')
@@ -251,7 +260,8 @@ class Explorer:
     """Runs fn(ctx) over all feasible paths."""
 
     def __init__(self, max_paths=400, wall_s=120.0, query_timeout_ms=20000, seed=0,
-                 want_sample=True):
+                 want_sample=True, rlimit=4000000):
+        self.rlimit = rlimit
         self.max_paths = max_paths
         self.wall_s = wall_s
         self.query_timeout_ms = query_timeout_ms
